@@ -441,7 +441,22 @@ def try_read(path, data):
     try:
         r = GroFile(path)
     except Exception:
-        return None
+        # the same image handed over as an already opened file must be refused as well
+        fh = None
+        try:
+            fh = open(path)
+            r2 = GroFile(fh)
+        except Exception:
+            return None
+        finally:
+            try:
+                if fh is not None and not fh.closed:
+                    fh.close()
+            except Exception:
+                pass
+        bad = OpenedButUnreadable()
+        bad.how = "open file accepted what the path refused"
+        return bad
     try:
         recs = r.readlines()
     except Exception:
